@@ -58,7 +58,19 @@ def main():
                 traj[int(r.info.iteration)] = g
             out["trajectory"] = traj
     elif a["mode"] == "first":
-        s = cls(problem(), checkpoint_dir=a["dir"], **kw)
+        if a.get("reuse_config"):
+            # a parameter sweep that reuses ONE solver configuration object: an earlier solver of the sweep wrote
+            # its (other) problem into it; this run passes that object together with its own problem instance
+            from vf import shipped
+
+            other = dict(a["problem"]["params"])
+            other.update(a["reuse_config"])
+            cfg = cls.Config(checkpoint_dir=a["dir"] + "_sweep_neighbour", **kw)
+            cls(shipped.make(a["problem"]["name"], other), config=cfg)
+            cfg.checkpoint_dir = a["dir"]
+            s = cls(problem(), config=cfg)
+        else:
+            s = cls(problem(), checkpoint_dir=a["dir"], **kw)
         res = s.solve(a["k"])
         ckpt.wait(s)
         out["at_k"] = ckpt.state_sig(sv, res)
